@@ -106,16 +106,10 @@ def run(ctx):
     max_paths = ctx.n(10, 40)
     items = []
     sysprogs = cf.systematic_programs(2 if ctx.quick else 3)
-    if ctx.quick:
-        # the from-loop matrix and all two-level nests are always run; quick samples the exits evenly
-        rng = ctx.rng("sys")
-        keep = [p for p in sysprogs if p[2][0] == "sys-from"]
-        rest = [p for p in sysprogs if p[2][0] != "sys-from"]
-        keep = rng.sample(keep, 200) + rng.sample(rest, 150)
-        sysprogs = keep
+    # quick: the complete two-level family (no sampling); thorough: three levels
     for p in sysprogs:
         items.append(("sys", p, max_dec, max_paths, ctx.seed))
-    nrand = ctx.n(450, 9000)
+    nrand = ctx.n(1500, 12000)
     base = ctx.seed * 1000003
     for i in range(nrand):
         items.append(("rand", base + i, max_dec, ctx.n(6, 16), ctx.seed))
